@@ -469,13 +469,20 @@ def extract_sweep(view, loop):
         inner["start"] = (view.array_role(iv["b"]), idx_kind(iv["idx"]), off)
         l, op2, r = cond_on(view, c["cond"], c["d"])
         l = as_index(l)
+        if l.get("k") == "Ref" and op2 == "!=":
+            op2 = "<" if c["step"] > 0 else ">"        # k != end with unit steps towards end
         if l.get("k") == "Ref":
             rr = as_index(r)
             if rr.get("k") != "Index":
                 rr = as_index(view.value(rr))     # hoisted into a const local: `const IT_ jend = rptr[i+1];`
+            boff = 0
+            if rr.get("k") == "Bin" and rr.get("op") in ("+", "-") and strip(rr["rhs"]).get("k") == "Int":
+                boff = int(strip(rr["rhs"])["v"]) * (1 if rr["op"] == "+" else -1)
+                rr = as_index(rr["lhs"])
             if rr.get("k") != "Index":
                 raise NotRecognised("inner loop bound %s" % render(r))
-            inner["guard"] = ("k", op2, (view.array_role(rr["b"]), idx_kind(rr["idx"])))
+            bound = (view.array_role(rr["b"]), idx_kind(rr["idx"]))
+            inner["guard"] = ("k", op2, bound + (boff,) if boff else bound)
         elif l.get("k") == "Index":
             rr = strip(r)
             ik = idx_kind(rr) if rr.get("k") in ("Ref", "Bin") else None
